@@ -362,9 +362,9 @@ impl C10 {
         rep.max(if case.f32m { "sum_w_rel_f32" } else { "sum_w_rel_f64" }, sw.abs() / (c_eff * n as f64));
         // every update subtracts a step from one coefficient and adds it to another (two roundings of values <= C);
         // there is at most one update per tick of the hook (row processed / reprocess), one per row in `initialize`
-        // and n + 1 in `finish`. Judged with 4x that; never looser than the flat bound used before.
+        // and n + 1 in `finish`. Judged with 4x that. (A flat bound relative to C*n, used first and then kept as a cap, has no derivation: the drift of a fit with 1e9 updates reached 58% of it.)
         let eps_t = if case.f32m { f32::EPSILON as f64 } else { f64::EPSILON };
-        let sum_tol = (t.sum_rel * c_eff * n as f64).min(4.0 * eps_t * (ticks.get() as f64 + 3.0 * n as f64 + 8.0) * c_eff);
+        let sum_tol = 4.0 * eps_t * (ticks.get() as f64 + 3.0 * n as f64 + 8.0) * c_eff;
         rep.max(if case.f32m { "sum_w_over_tol_f32" } else { "sum_w_over_tol_f64" }, sw.abs() / sum_tol);
         if !(sw.abs() <= sum_tol) {
             rep.fail("sum-to-zero", "svc-dual-feasibility", format!("{}: dual coefficients sum to {:e} (more than {:e}; |w| = {}, C = {})", ctx, sw, sum_tol, w.len(), c_eff));
@@ -563,7 +563,7 @@ impl C10 {
         // two roundings of a value <= C, and the n differences alpha_1 - alpha_0 one more each. Judged with 4x that;
         // never looser than the flat bound used before.
         let eps_t = if case.f32m { f32::EPSILON as f64 } else { f64::EPSILON };
-        let sum_tol = (t.sum_rel * c_eff * n as f64).min(4.0 * eps_t * (ticks.get() as f64 + n as f64 + 8.0) * c_eff);
+        let sum_tol = 4.0 * eps_t * (ticks.get() as f64 + n as f64 + 8.0) * c_eff;
         rep.max(if case.f32m { "svr_sum_w_over_tol_f32" } else { "svr_sum_w_over_tol_f64" }, sw.abs() / sum_tol);
         if !(sw.abs() <= sum_tol) {
             rep.fail("sum-to-zero", "svr-dual-feasibility", format!("{}: coefficients sum to {:e} (more than {:e} after {} steps)", ctx, sw, sum_tol, ticks.get()));
@@ -1064,14 +1064,14 @@ fn gen_case(batch: &str, index: u64, seed: u64) -> Case {
         "svr-marathon" => {
             // converging fits that need 1e6..1e8 SMO updates: tiny n (each update is cheap), one feature of magnitude
             // 300..1000 under the linear kernel (curvature 1e5..1e6), C chosen so that C * scale^2 (the number of
-            // updates a coefficient needs to reach its bound) is 5e6..3e7, targets that cannot be fitted
+            // updates a coefficient needs to reach its bound) is 5e6..1.5e7, targets that cannot be fitted
             let n = pr.usize_in(4, 8);
             let scale = logu(&mut pr, 300.0, 1000.0);
-            let u = logu(&mut pr, 5e6, 3e7);
+            let u = logu(&mut pr, 5e6, 1.5e7);
             let c = (u / (scale * scale)).min(100.0).max(0.1);
             let x: Vec<Vec<f64>> = (0..n).map(|_| vec![scale * r.range(-1.0, 1.0)]).collect();
             let y: Vec<f64> = (0..n).map(|_| r.range(-1.5, 1.5)).collect();
-            Case { model: "svr".into(), x, y, kernel: KSpec { kind: "linear".into(), gamma: 0.0, degree: 0.0, coef0: 0.0 }, c, tol: 1e-3, epoch: 0, eps: *pr.pick(&[0.0, 0.1]), f32m: false, queries: vec![], budget: 4_000_000_000, tape: TapeSpec::prng(tape_seed), kind: "svr-marathon".into(), ctor: (seed % 4) as u8 }
+            Case { model: "svr".into(), x, y, kernel: KSpec { kind: "linear".into(), gamma: 0.0, degree: 0.0, coef0: 0.0 }, c, tol: 1e-3, epoch: 0, eps: *pr.pick(&[0.0, 0.1]), f32m: false, queries: vec![], budget: 100_000_000_000, tape: TapeSpec::prng(tape_seed), kind: "svr-marathon".into(), ctor: (seed % 4) as u8 }
         }
         "svr" | "svr-f32" => {
             let n = pr.usize_in(4, 40);
@@ -1185,7 +1185,7 @@ impl Property for C10 {
             Batch { name: "svr-resonant", count: if q { 20_000 } else { 1_000_000 }, simulated: false, exhaustive: false, note: "schedule-free: tiny lattice / continuous fits whose C is tuned to the data — equal to, or 2^-j (j 20..52) above or below, the unclipped pair optimum of two training rows — and whose targets sit 2^-j off the lattice: the instants where an SMO step lands on a bound" },
             Batch { name: "svr-hard", count: if q { 48 } else { 1_500 }, simulated: false, exhaustive: false, note: "schedule-free: the slowly converging corner (C = 100, linear / quadratic / RBF kernels on features in [-3,3], n 20..60, tol 1e-3) with a 4e9-iteration fallback budget; few runs because each takes up to seconds" },
             Batch { name: "svr-hard-tight", count: if q { 12 } else { 600 }, simulated: false, exhaustive: false, note: "same corner at tol 1e-4, quadratic kernel, low noise (up to ~2e7 iterations per fit)" },
-            Batch { name: "svr-marathon", count: if q { 12 } else { 480 }, simulated: false, exhaustive: false, note: "schedule-free: converging fits that need 1e6..1e8 SMO updates (4..8 rows, one feature of magnitude 300..1000, linear kernel, C * scale^2 = 5e6..3e7): optimality must hold at termination however long it takes" },
+            Batch { name: "svr-marathon", count: if q { 12 } else { 240 }, simulated: false, exhaustive: false, note: "schedule-free: converging fits that need 1e6..1e8 SMO updates (4..8 rows, one feature of magnitude 300..1000, linear kernel, C * scale^2 = 5e6..1.5e7): optimality must hold at termination however long it takes" },
             Batch { name: "svr-large-features", count: if q { 1_500 } else { 60_000 }, simulated: false, exhaustive: false, note: "schedule-free: large kernel curvature (linear kernel on features of magnitude 30..300, quadratic on ~10), noise below epsilon, f32 and f64" },
             Batch { name: "svr-f32-resolution", count: if q { 1_500 } else { 60_000 }, simulated: false, exhaustive: false, note: "schedule-free: f32 fits whose tolerance lies below the floating-point resolution of the targets (|y| 1e3..1e5, tol 1e-3..1e-4) — the region of the repaired livelock" },
             Batch { name: "svr-f32", count: if q { 1_000 } else { 100_000 }, simulated: false, exhaustive: false, note: "schedule-free, single precision" },
